@@ -6,6 +6,7 @@ CONSTANTS NW = 2
  MaxObj = 2
  MaxL = 4
  MaxQ = 5
+ NKeys = 2
  SCN = "gate"
  NT = 3
  K = 1
